@@ -54,6 +54,7 @@ def gen(rng):
         else:
             wm["lock"] = core.lock_text(lockv)
     knobs = {"threads": rng.randrange(1, 5), "config_arg": rng.choice(["rel", "abs"])}
+    knobs = scen.env_knobs(rng, knobs)
     plan = {"seed": rng.getrandbits(48) | 1, "perm": True, "faults": []}
     return wm, knobs, plan, lockmode
 
